@@ -3,6 +3,8 @@
 
 from jax2onnx._compat.jax import JaxprEqn
 import jax
+import numpy as np
+import onnx_ir as ir
 
 from jax2onnx.converter.typing_support import LoweringContextProtocol
 from jax2onnx.plugins._post_check_onnx_graph import expect_graph as EG
@@ -24,13 +26,27 @@ from jax2onnx.plugins.plugin_system import PrimitiveLeafPlugin, register_primiti
     testcases=[
         {
             "testcase": "round",
-            "callable": lambda x: jax.lax.round(x),
+            "callable": lambda x: jax.lax.round(
+                x, jax.lax.RoundingMethod.TO_NEAREST_EVEN
+            ),
             "input_shapes": [(3,)],
             "post_check_onnx_graph": EG(
                 ["Round:3"],
                 no_unused_inputs=True,
             ),
-        }
+        },
+        {
+            # lax.round defaults to AWAY_FROM_ZERO: ties must not go to even.
+            "testcase": "round_away_from_zero_ties",
+            "callable": lambda x: jax.lax.round(x),
+            "input_values": [
+                np.array([0.5, 1.5, 2.5, -0.5, -1.5, -2.5, 0.49999997, 3.7], np.float32)
+            ],
+            "post_check_onnx_graph": EG(
+                ["Abs:8 -> Floor:8"],
+                no_unused_inputs=True,
+            ),
+        },
     ],
 )
 class RoundPlugin(PrimitiveLeafPlugin):
@@ -46,7 +62,53 @@ class RoundPlugin(PrimitiveLeafPlugin):
         if getattr(out_spec, "producer", None) is not None:
             desired_name = ctx.fresh_name("round_out")
 
-        result = ctx.builder.Round(x_val, _outputs=[desired_name])
+        method = eqn.params.get(
+            "rounding_method", jax.lax.RoundingMethod.AWAY_FROM_ZERO
+        )
+        if method == jax.lax.RoundingMethod.TO_NEAREST_EVEN:
+            # ONNX Round is round-half-to-even.
+            result = ctx.builder.Round(x_val, _outputs=[desired_name])
+            result.type = out_spec.type
+            result.shape = out_spec.shape
+            ctx.bind_value_for_var(out_var, result)
+            return
+
+        # AWAY_FROM_ZERO: sign(x) * (floor|x| + [|x| - floor|x| >= 0.5]).
+        # |x| - floor|x| is exact in floating point, so ties are detected exactly.
+        np_dtype = np.dtype(getattr(x_var.aval, "dtype", np.float32))
+        half = ctx.bind_const_for_var(object(), np.asarray(0.5, dtype=np_dtype))
+        one = ctx.bind_const_for_var(object(), np.asarray(1.0, dtype=np_dtype))
+
+        def _like_x(value, *, dtype=None):
+            value.type = (
+                ir.TensorType(dtype) if dtype is not None else getattr(x_val, "type", None)
+            )
+            value.shape = getattr(x_val, "shape", None)
+            return value
+
+        abs_x = _like_x(ctx.builder.Abs(x_val, _outputs=[ctx.fresh_name("round_abs")]))
+        floor_x = _like_x(
+            ctx.builder.Floor(abs_x, _outputs=[ctx.fresh_name("round_floor")])
+        )
+        frac = _like_x(
+            ctx.builder.Sub(abs_x, floor_x, _outputs=[ctx.fresh_name("round_frac")])
+        )
+        up = _like_x(
+            ctx.builder.GreaterOrEqual(
+                frac, half, _outputs=[ctx.fresh_name("round_up")]
+            ),
+            dtype=ir.DataType.BOOL,
+        )
+        floor_plus = _like_x(
+            ctx.builder.Add(floor_x, one, _outputs=[ctx.fresh_name("round_floor_p1")])
+        )
+        mag = _like_x(
+            ctx.builder.Where(
+                up, floor_plus, floor_x, _outputs=[ctx.fresh_name("round_mag")]
+            )
+        )
+        sign = _like_x(ctx.builder.Sign(x_val, _outputs=[ctx.fresh_name("round_sign")]))
+        result = ctx.builder.Mul(sign, mag, _outputs=[desired_name])
         result.type = out_spec.type
         result.shape = out_spec.shape
         ctx.bind_value_for_var(out_var, result)
